@@ -23,6 +23,9 @@ type c07Kind struct {
 	build func(t *T) (fs hackpadfs.FS, setup hackpadfs.FS, cleanup func())
 }
 
+// c07Cores: the fault wrappers of the two instances of the kind built last (view side, direct side).
+var c07Cores []*capCore
+
 func c07Kinds() []c07Kind {
 	return []c07Kind{
 		{name: "mem", alpha: []string{"a", "b", "c"}, dirs: []string{"a", ".", "a/b", "b"},
@@ -46,6 +49,13 @@ func c07Kinds() []c07Kind {
 			build: func(t *T) (hackpadfs.FS, hackpadfs.FS, func()) {
 				fs, _ := mem.NewFS()
 				return openOnlyFS{fs}, fs, func() {}
+			}},
+		{name: "fault wrapper over mem (Open only)", alpha: []string{"a", "b", "c"}, dirs: []string{"a", ".", "a/b"},
+			build: func(t *T) (hackpadfs.FS, hackpadfs.FS, func()) {
+				fs, _ := mem.NewFS()
+				core := &capCore{t: t, inner: fs, faultAt: -1, label: "under.", partialDir: true, readShape: 2}
+				c07Cores = append(c07Cores, core)
+				return newCapFS(core, nil), fs, func() {}
 			}},
 		{name: "Sub(mem, a) (nested)", alpha: []string{"a", "b", "c"}, dirs: []string{"b", ".", "b/c"},
 			build: func(t *T) (hackpadfs.FS, hackpadfs.FS, func()) {
@@ -81,6 +91,7 @@ func runC07(t *T) {
 	defer beginTrial(t, true)()
 	kinds := c07Kinds()
 	k := kinds[c.Draw(len(kinds))]
+	c07Cores = nil
 	A, setupA, cleanA := k.build(t)
 	defer cleanA()
 	B, setupB, cleanB := k.build(t)
@@ -187,8 +198,31 @@ func runC07(t *T) {
 				ob.Q = joinView(dir, o.Q)
 			}
 			sig := "C07:" + k.name + ":" + opSig(Op{Kind: o.Kind, P: ob.P, Q: ob.Q, Flag: o.Flag & 3}, snapB)
+			// on the fault wrapper: the same read fault on both instances (a read that delivers part of the bytes or
+			// of the entries and then fails): the view hands on what its parent hands out, partial results included
+			faultKind := ""
+			if len(c07Cores) == 2 && (o.Kind == "ReadFile" || o.Kind == "ReadDir") && c.Chance(1, 2) {
+				faultKind = map[string]string{"ReadFile": "file.Read", "ReadDir": "file.ReadDir"}[o.Kind]
+				at := 0
+				if o.Kind == "ReadFile" {
+					at = 1 + c.Draw(3)
+				}
+				for _, core := range c07Cores {
+					core.faultKind, core.kindSeen, core.faultAt, core.fired = faultKind, 0, at, ""
+				}
+			}
 			got := applyOp(view, o)
 			want := applyOp(B, ob)
+			for _, core := range c07Cores {
+				core.disarm()
+			}
+			if o.Kind == "ReadDir" {
+				// which half of an unordered listing arrives before the failure is the inner file system's order: count only
+				got.Partial, want.Partial = fmt.Sprint(strings.Count(got.Partial, ":")), fmt.Sprint(strings.Count(want.Partial, ":"))
+			}
+			if faultKind != "" && got.Err != nil && want.Err != nil && got.Partial != want.Partial {
+				t.Fail("partial", sig+":partial-result-differs", fmt.Sprintf("%s on Sub(%s, %q) while a read of the underlying FS fails part-way: the view delivered %q with its error (%v), the parent %q (%v)", o, k.name, dir, got.Partial, got.Err, want.Partial, want.Err))
+			}
 			t.Logf("%d view(%q) %s -> view=%s direct(%s)=%s", i, dir, o, errClass(got.Err), ob.P, errClass(want.Err))
 			invalidName := !hackpadfs.ValidPath(o.P) || (o.Kind == "Rename" && !hackpadfs.ValidPath(o.Q))
 			if invalidName {
